@@ -121,16 +121,50 @@ def eff_order(case):
     return out + [v for v in case["order"] if v not in out]
 
 
+def build_calls(case):
+    """the addNode / addEdge calls that build the network of a case, with the coordinates of every Node object handed over:
+    {"pre": [[v,x,y]…] addNode calls before the edges, "ends": per edge [sx,sy,tx,ty], "post": addNode calls after}.
+    recoord: a Node object given for an id that is already registered carries OTHER coordinates (the first registration
+    must win)."""
+    build = case.get("build", "plain")
+    pos = case["pos"]
+    edges = nc.expand(case)
+    seen = set()
+
+    def coord(v):
+        if v in seen and case.get("recoord"):
+            return [pos[v][0] + 17, pos[v][1] - 5]
+        seen.add(v)
+        return list(pos[v])
+    pre, ends, post = [], [], []
+    if build in ("plain", "fresh"):
+        pre = [[v] + coord(v) for v in case["order"]]
+    for k, (i, s, t, w, o) in enumerate(edges):
+        if build == "reader":
+            l = case["lines"][k]
+            seen.update((s, t))
+            ends.append(list(l[0]) + list(l[-1]))
+        elif build == "plain":
+            ends.append(list(pos[s]) + list(pos[t]))
+        else:
+            cs = coord(s)
+            ends.append(cs + coord(t))
+    if build in ("lazy", "reader"):
+        post = [[v] + coord(v) for v in case["order"]]
+    return {"pre": pre, "ends": ends, "post": post}
+
+
 def build_net(mods, case):
     """the real Network of a case.
     ids:   "int" node ids 0..n-1, edge ids as given | "str" node ids 'A','B',… (same order), edge ids 'e<id>'
     build: "plain" every node added first (in `order`), the same Node objects given to addEdge |
            "fresh" as plain, but addEdge is given fresh Node objects with the same ids (what NetworkReader does) |
-           "lazy"  nodes are created by addEdge, the isolated ones are added afterwards |
+           "lazy"  nodes are created by addEdge, then addNode is called for every node (registers the isolated ones) |
            "reader" the edges are written to a CSV file (WKT geometries, str ids, weight and direction columns) and read by
-                   NetworkReader.readFromFile (which computes abs_curv on every geometry: an analytical feature); the isolated
-                   nodes are added afterwards. Needs >= 2 vertices per edge and polylines joining the node positions.
-    af:    every edge geometry with at least one vertex carries an analytical feature"""
+                   NetworkReader.readFromFile (which computes abs_curv on every geometry: an analytical feature); then addNode
+                   for every node. Needs >= 2 vertices per edge and polylines joining the node positions.
+    af:    every edge geometry with at least one vertex carries an analytical feature
+    recoord: see build_calls"""
     Network, Node, Edge, Track, Obs, ENUCoords, ObsTime = mods
     build = case.get("build", "plain")
     strids = case.get("ids", "int") == "str" or build == "reader"
@@ -138,6 +172,8 @@ def build_net(mods, case):
     eid = (lambda i: "e%d" % i) if strids else (lambda i: i)
     pos = case["pos"]
     mk = lambda v: Node(nid(v), ENUCoords(pos[v][0], pos[v][1], 0))
+    mkc = lambda v, x, y: Node(nid(v), ENUCoords(x, y, 0))
+    calls = build_calls(case)
     if build == "reader":
         from tracklib.io import NetworkReader, NetworkFormat
         fmt = NetworkFormat({"name": "c07", "pos_edge_id": 0, "pos_source": 1, "pos_target": 2, "pos_wkt": 3, "pos_weight": 4,
@@ -150,15 +186,14 @@ def build_net(mods, case):
                     fh.write("%s;%s;%s;LINESTRING(%s);%r;%d\n" % (eid(i), nid(s), nid(t), ", ".join("%r %r" % (float(x), float(y)) for x, y in case["lines"][k]),
                                                                float(nc.pynum(w)), o))
             net = NetworkReader.readFromFile(path, fmt, verbose=False)
-        for v in case["order"]:
-            net.addNode(mk(v))
+        for (v, x, y) in calls["post"]:
+            net.addNode(mkc(v, x, y))
         return net, nid, eid, mk
     net = Network()
     nodes = {}
-    if build != "lazy":
-        for v in case["order"]:
-            nodes[v] = mk(v)
-            net.addNode(nodes[v])
+    for (v, x, y) in calls["pre"]:
+        nodes[v] = mkc(v, x, y)
+        net.addNode(nodes[v])
     for k, (i, s, t, w, o) in enumerate(nc.expand(case)):
         tr = Track([Obs(ENUCoords(x, y, 0), ObsTime()) for (x, y) in case["lines"][k]])
         if case.get("af") and len(case["lines"][k]) > 0:
@@ -169,10 +204,10 @@ def build_net(mods, case):
         if build == "plain":
             net.addEdge(e, nodes[s], nodes[t])
         else:
-            net.addEdge(e, mk(s), mk(t))
-    if build == "lazy":
-        for v in case["order"]:
-            net.addNode(mk(v))
+            sx, sy, tx, ty = calls["ends"][k]
+            net.addEdge(e, mkc(s, sx, sy), mkc(t, tx, ty))
+    for (v, x, y) in calls["post"]:
+        net.addNode(mkc(v, x, y))
     return net, nid, eid, mk
 
 
@@ -310,12 +345,15 @@ class P(Prop):
         (M, "TV.C07.session_outputs_ok", "in ANY sequence of shortest_path / shortest_distance / run_routing_forward / run_routing_backward calls on one network, the backward loop terminates and every returned track is the chain of a real route whose weights sum to the label of its last node"),
         (M, "TV.C07.backward_settled_optimal", "after a search stopped at another target or by a cut-off, run_routing_backward(t) for any node t != s settled before the stop returns a route realising the true distance"),
         (M, "TV.C07.output_dict_entries_sound", "every entry (s,u) -> y written to output_dict by shortest_path / any search is the true distance s->u and does not exceed the cut-off"),
+        (M, "TV.C07.next_edges_as_built", "for a network built by addEdge calls: EDGES = the edges in insertion order; NEXT_EDGES[u] looked up in EDGES = every edge that may be left from u, a two-way self-loop twice; the relaxation loop over it = the loop over the model's nextEdges (each edge once)"),
+        (M, "TV.C07.first_registration_wins", "a node's position is the coordinate of its first registration (addNode / addEdge with other Node objects of the same id do not change it); addEdge registers both ends"),
         (M, "TV.C07.backward_after_full_search", "after a search without target and cut-off (shortest_distance(s) / run_routing_forward(s)), run_routing_backward(t) = None iff t unreachable or t = s, else a route s->t realising the true distance"),
     ]
     partial = []
     open_statements = ["Track.copy is modelled as the identity on (points, feature table): the deep copy of the Obs objects (no aliasing between the returned track and the edge geometries) is checked by the harness only through the stability of later answers",
                        "float rounding of sums of non-dyadic weights is outside the theorems (weights: a linearly ordered additive commutative monoid; the correspondence streams use integers and dyadic rationals, exact in float arithmetic)"]
-    modelled = ("Network.run_routing_forward (as for C06) with __correctInputNode (node by id / Node object) and __resetFlags on the flags left by earlier searches; "
+    modelled = ("Network.addNode / addEdge (NODES with first registration winning, EDGES, NEXT_EDGES filled incrementally; proved to give the model's adjacency); "
+                "Network.run_routing_forward (as for C06) with __correctInputNode (node by id / Node object) and __resetFlags on the flags left by earlier searches; "
                 "run_routing_backward (walk of antecedent / antecedent_edge, polyline reversed when e.source != node, appended minus its first vertex, final reverse, "
                 "path = node ids reversed) written with the Track operators of the C04 model (Track(), addObs, copy, reverse, `>`, `+` with its feature-name test) "
                 "and proved equal to the list-level walk; shortest_path, shortest_distance (pair and list form), output_dict, and sequences of these calls on one Network object")
@@ -324,7 +362,7 @@ class P(Prop):
     rule = ("the C06 graph space (all edge lists of length <= 2 on <= 3 nodes in quick, + all 3-edge multisets in thorough; random to 12 nodes / 40 edges, parallel edges of equal and of "
             "different weight) with node positions on an integer lattice (some coincident) and edge polylines of 1-5 vertices from the source's to the target's position (straight, bent, repeated "
             "consecutive vertices, coming back over an end point, over another node, closed loops); a 'loose' stream whose polylines ignore the node positions (0-4 vertices; geometry compared "
-            "with the model only). Networks built with int or str ids, with the caller's Node objects / fresh Node objects per edge / nodes created by addEdge / through a CSV file read by NetworkReader.readFromFile (str ids, abs_curv feature on every geometry); edge geometries "
+            "with the model only). Networks built with int or str ids (NODES order, stored positions, NEXT_EDGES and edge ends compared with the model's addNode/addEdge), with the caller's Node objects / fresh Node objects per edge / nodes created by addEdge / Node objects of an already registered id carrying other coordinates / through a CSV file read by NetworkReader.readFromFile (str ids, abs_curv feature on every geometry); edge geometries "
             "with or without an analytical feature; in a third of the random cases the caller moves the points of every track it is given (aliasing with the network would show in later answers). Calls: every ordered pair by shortest_path on ONE object; for the same enumerated graphs a sequence in which every ordered pair "
             "of queries is consecutive; random sessions mixing shortest_path, shortest_distance (pair / list), run_routing_forward, run_routing_backward (several targets after one search, before "
             "any search), nodes by id / own object / fresh object, output_dict, source = target, unreachable after reachable, cut-offs below / at / above the distances. A float stream (kind sess-float): weights = polyline lengths / multiples of 0.1 / uniform reals, model instantiated at Float and compared bit for bit, "
@@ -367,6 +405,8 @@ class P(Prop):
                 g["af"] = 1
             if rng.random() < 0.3:
                 g["scribble"] = 1
+            if g.get("build") in ("fresh", "lazy") and rng.random() < 0.3:
+                g["recoord"] = 1
         else:
             pos, lines = nc.random_geometry(rng, g["n"], nc.expand(g))
         g["pos"] = pos
@@ -456,7 +496,7 @@ class P(Prop):
                 "zero_weight": any(nc.num(e[3]) == 0 for e in edges), "reverse_only_edge": any(e[4] < 0 for e in edges),
                 "tie": ties, "line_sizes": "".join(sorted({str(len(l)) for l in case["lines"]})),
                 "cut": any(o[0] != "B" and o[3] != "none" for o in ops),
-                "ids": case.get("ids", "int"), "build": case.get("build", "plain"), "loose": bool(case.get("loose")), "af": bool(case.get("af")), "scribble": bool(case.get("scribble")), "float_weights": bool(case.get("float")),
+                "ids": case.get("ids", "int"), "build": case.get("build", "plain"), "loose": bool(case.get("loose")), "af": bool(case.get("af")), "scribble": bool(case.get("scribble")), "recoord": bool(case.get("recoord")), "float_weights": bool(case.get("float")),
                 "parallel_equal_weight": par, "repeated_vertex": rep,
                 "op_kinds": "".join(sorted({o[0] for o in ops})),
                 "node_forms": "".join(sorted({(a[0] if a[0] in "of" else "i") for o in ops for a in o[1:3] if isinstance(a, str) and a not in ("-", "none")})),
@@ -512,6 +552,12 @@ class P(Prop):
             inv = {nid(v): v for v in range(n)}
             einv = {eid(e[0]): e[0] for e in nc.expand(case)}
             od = {}
+            # the network as addNode / addEdge left it
+            built = {"next": [[einv.get(i, repr(i)) for i in net.NEXT_EDGES[nid(v)]] for v in range(n)],
+                     "pos": [[nc.tok(Fraction(net.NODES[nid(v)].coord.getX())), nc.tok(Fraction(net.NODES[nid(v)].coord.getY()))] for v in range(n)],
+                     "order": [inv.get(k, repr(k)) for k in net.NODES.keys()],
+                     "ends": [[einv.get(k, repr(k)), inv.get(e.source.id, repr(e.source.id)), inv.get(e.target.id, repr(e.target.id)), e.orientation,
+                               e.source is net.NODES[e.source.id] and e.target is net.NODES[e.target.id]] for k, e in net.EDGES.items()]}
 
             def arg(a):
                 if a == "-":
@@ -550,7 +596,7 @@ class P(Prop):
                     net.run_routing_forward(arg(op[1]), arg(op[2]), **kw)
                     out.append({"op": "F"})
             dct = sorted([inv.get(k[0], -1), inv.get(k[1], -1), nc.tok(Fraction(v))] for k, v in od.items())
-        return {"ops": out, "dict": dct}
+        return {"ops": out, "dict": dct, "net": built}
 
     # ---------------------------------------------------------------- model
     def requests(self, case):
@@ -568,13 +614,20 @@ class P(Prop):
             else:
                 ops.append("%s:%s:%s:%s:%d" % (o[0], a(o[1]), a(o[2]), ct(o[3]), 1 if o[4] else 0))
         etok = nc.edges_token(edges) if not fl else (";".join("%d,%d,%d,%s,%d" % (i, u, v, fbits(w), o) for (i, u, v, w, o) in edges) or "_")
-        return ["C07.%ssession %d %s %s %s %s %d %s" % ("f" if fl else "", case["n"], ",".join(str(v) for v in eff_order(case)), etok, pos, lines,
+        calls = build_calls(case)
+        ctok = lambda l: ";".join(",".join(str(x) for x in c) for c in l) if l else "_"
+        return ["C07.%sbuild %d %s %s %s %s" % ("f" if fl else "", case["n"], ctok(calls["pre"]), etok, ctok(calls["ends"]), ctok(calls["post"])),
+                "C07.%ssession %d %s %s %s %s %d %s" % ("f" if fl else "", case["n"], ",".join(str(v) for v in eff_order(case)), etok, pos, lines,
                                                        1 if (case.get("af") or case.get("build") == "reader") else 0, ";".join(ops) if ops else "_")]
 
     def decode(self, case, replies):
-        r = replies[0]
-        if r == "bad-request":
+        r = replies[1]
+        if r == "bad-request" or replies[0] == "bad-request":
             raise ValueError("bad-request")
+        nx, ps, od_ = replies[0].split("#")
+        built = {"next": [[] if l == "e" else [int(x) for x in l.split(",")] for l in ([] if nx == "_" else nx.split(";"))],
+                 "pos": [l.split(",") for l in ([] if ps == "_" else ps.split(";"))],
+                 "order": [] if od_ == "_" else [int(x) for x in od_.split(",")]}
         outs, dct = r.split("#")
         ops = ops_of(case)
         fl = bool(case.get("float"))
@@ -603,7 +656,7 @@ class P(Prop):
                     res.append({"op": op[0], "label": label,
                                 "p": {"path": [int(x) for x in nodes.split(",")], "xy": [[q[i], q[i + 1]] for i in range(0, len(q), 2)]}})
         entries = [] if dct == "_" else [e.split(",") for e in dct.split(";")]
-        return {"ops": res, "dict": sorted([int(e[0]), int(e[1]), num(e[2])] for e in entries)}
+        return {"ops": res, "dict": sorted([int(e[0]), int(e[1]), num(e[2])] for e in entries), "net": built}
 
     def compare(self, case, impl_out, model_out):
         """exact agreement with the model, except where the property leaves freedom — there the implementation's answer is
@@ -623,6 +676,13 @@ class P(Prop):
         ops = ops_of(case)
         fl = bool(case.get("float"))
         memo = {}
+        nx, ny = impl_out["net"], model_out["net"]
+        for key in ("next", "pos", "order"):
+            if nx[key] != ny[key]:
+                return "network as built, %s: impl=%s model=%s" % (key, nx[key], ny[key])
+        want = [[e[0], e[1], e[2], e[4], True] for e in nc.expand(case)]
+        if nx["ends"] != want:
+            return "network as built: edges (id, source, target, orientation, ends are the registered nodes) %s, given %s" % (nx["ends"], want)
 
         def dist():
             if "d" not in memo:
@@ -723,8 +783,9 @@ class P(Prop):
                 return "step %s->%s of path %s: edge %d (source %d, target %d, orientation %d) cannot be traversed in that direction" % (a, b, path, eid, es, et, o), None
             total += nc.num(w)
             options.append(opts)
-        if case.get("loose"):
-            return None, total      # the polylines do not join the node positions: no chain to speak of (compared with the model only)
+        if case.get("loose") or case.get("recoord"):
+            return None, total      # the polylines do not join the node positions / a node was given several positions: no chain to
+                                    # speak of (the geometry is compared with the model only)
         got = [[Fraction(px), Fraction(py)] for px, py in x["xy"]]
         ok = False
         for choice in itertools.islice(itertools.product(*options), 64):
@@ -832,7 +893,7 @@ class P(Prop):
                     simp[4] = 0
                 if simp != o:
                     yield dict(case, ops=ops[:k] + [simp] + ops[k + 1:])
-        for key in ("ids", "build", "af", "scribble"):
+        for key in ("ids", "build", "af", "scribble", "recoord"):
             if key in case:
                 yield {k: v for k, v in case.items() if k != key}
         if case.get("seq") == "euler":
